@@ -26,6 +26,9 @@ func vMkSources(k int, maxL int) ([]*vSrc, []io.Reader, []byte) {
 	return srcs, rs, all
 }
 
+// MultiReaderCloser over 0..2 sources read with buffers of 1..3 bytes: the concatenation, then EOF; each source closed
+// exactly once after Close.
+//
 //verif:harness prop=C16 name=multi_read unwind=14
 func VerifMultiRead() {
 	k := zzverif.Choose("k", 3) // 0..2 sources
@@ -63,6 +66,8 @@ func (w *vSink) Write(p []byte) (int, error) {
 	return len(p), nil
 }
 
+// The WriteTo path (what io.Copy uses) with a small copy buffer: same bytes, same count, each source closed exactly once.
+//
 //verif:harness prop=C16 name=multi_writeto unwind=14
 func VerifMultiWriteTo() {
 	k := zzverif.Choose("k", 3)
@@ -81,6 +86,8 @@ func VerifMultiWriteTo() {
 	zzverif.Cover("multi_writeto_done")
 }
 
+// The public path io.Copy(dst, multiReader), which takes WriteTo with its 32 KiB buffer.
+//
 //verif:harness prop=C16 name=multi_copy unwind=14
 func VerifMultiCopy() {
 	// the public path: io.Copy(dst, multiReader) -> WriteTo
